@@ -5,7 +5,7 @@ COMMON_ASSUME = [
     "verdict covers only the executions produced by this run (seeded workload), not all inputs/schedules",
 ]
 
-HOOK_COMMITS = ["f841dfc"]
+HOOK_COMMITS = ["f841dfc", "f64b769"]
 NOT_APPLICABLE = {}
 
 CHECKS = {
@@ -200,13 +200,13 @@ CHECKS = {
                    "caller's 1st/2nd failed delegate attempt, between backlog push and select (verif hooks), when asleep, at the failed retry of a woken "
                    "loser, while unblock hands to a waiter that is being cancelled / timing out at the same instant, and with the broadcast delayed after "
                    "the inner release, and with every holder completing at the same moment from its own goroutine over a slow (yielding) delegate - at every snapshot "
-                   "a slot that is counted busy although nobody holds it while callers are blocked is a violation too; a second holder completing at the instant a release's hand-off attempt is refused by the delegate - for blocking (timeout 0 / T), deadline and queue FIFO/LIFO x eviction on/off, capacity 1-2, 1-3 waiters, all "
+                   "a slot that is counted busy although nobody holds it while callers are blocked is a violation too; a second holder completing at the instant a release's hand-off attempt is refused by the delegate, a release through a delegate listener that is slow to give the unit back, and (blocking / deadline) a release while the caller's subscribe helper is about to take the condition's lock (verif point) - for blocking (timeout 0 / T), deadline and queue FIFO/LIFO x eviction on/off, capacity 1-2, 1-3 waiters, all "
                    "outcomes. One case in fifty is a real-time stress run (4-16 goroutines, zero hold, timeout 0 / 1h, 200 iterations each) whose "
                    "stuck state (no progress for two watchdog periods, capacity free, workers inside Acquire) is a violation. Exploration of forced interleavings, not all schedules.",
         require=["scenarios", "quiescent_snapshots", "scenarios_reaching_their_schedule_point", "snapshots_with_blocked_callers",
                  "reached/after-failed-attempt-1", "reached/queue.after_push", "reached/queue.before_push", "reached/loser-retry",
-                 "reached/handoff-vs-cancel", "reached/handoff-vs-timeout", "reached/next-in-line-cancelled-but-not-evicted", "reached/asleep", "reached/parallel-releases", "stress_runs", "stress_grants"],
-        rule="scenario grid = limiter kind (7) x release point (7-11) x capacity {1,2} x waiters {1,2,3} x outcome (3); quick runs the grid 3 times, thorough 1500 "
+                 "reached/handoff-vs-cancel", "reached/handoff-vs-timeout", "reached/next-in-line-cancelled-but-not-evicted", "reached/asleep", "reached/parallel-releases", "reached/slow-inner-release", "reached/helper-before-lock", "stress_runs", "stress_grants"],
+        rule="scenario grid = limiter kind (7) x release point (10-13) x capacity {1,2} x waiters {1,2,3} x outcome (3); quick runs the grid 3 times, thorough 1500 "
              "times with PRNG pause budgets / strategy kind / targeted waiter; non-trivial = schedule point reached and some waiter granted; distinct = distinct scenario tuples.",
         assumptions=COMMON_ASSUME + ["sync.Cond.Wait, channel ops and select are durably blocking in a bubble, sync.Mutex is not (a caller waiting for a mutex counts as running)",
                                      "pauses at schedule points are bounded yields, never waits: they cannot deadlock an implementation that holds a lock across the window"],
